@@ -30,13 +30,14 @@ INODEDEL = r'^unodb::detail::basic_db_inode_deleter<unodb::detail::inode_%%d<uns
 for frm, to in ((1, 2), (2, 3), (3, 4), (2, 1), (3, 2), (4, 3)):
     nf, nt = CLSN[frm], CLSN[to]
     ctor = node_rx(nt, '64', 'db') + r'basic_inode_%d\(unodb::db<unsigned long, %s >&, unodb::detail::inode_%d<unsigned long, %s >&, %s' % (nt, SPAN, nf, SPAN, 'std::unique_ptr' if to > frm else 'unsigned char')
-    heavy = (frm, to) in ((3, 2), (3, 4), (4, 3))      # 256-step copy loops: need loop invariants, not closed within budget -> not registered under any property
-    job('node.db64.ctor.i%d_to_i%d' % (nf, nt), [] if heavy else ['C01', 'C10', 'C16'], 'u_db', 'proofs/node/ctor.c', tier=('off' if heavy else 'quick'), defines=['FROM=%d' % frm, 'TO=%d' % to, 'POL=DB64'],
+    heavy = (frm, to) in ((3, 2), (3, 4), (4, 3))      # 256-step copy loops: closed by loop invariants over a ghost rank array (ctor.c, COPY ROUTINES); every user assertion in its own sliced back-end call
+    job('node.db64.ctor.i%d_to_i%d' % (nf, nt), ['C01', 'C10', 'C16'], 'u_db', 'proofs/node/ctor.c', defines=['FROM=%d' % frm, 'TO=%d' % to, 'POL=DB64'],
         roots=dict({'CTOR': ctor, 'SRC_FIND': node_rx(nf, '64', 'db') + r'find_child\(std::byte\)', 'DST_FIND': node_rx(nt, '64', 'db') + r'find_child\(std::byte\)'},
                    **({'INIT': node_rx(nt, '64', 'db') + r'init\(unodb::db<[^()]*>&, unodb::detail::inode_%d<[^()]*>&, %s' % (nf, 'std::unique_ptr' if to > frm else r'unsigned char\)')} if heavy else {})),
-        stubs={'LEAF_DEL': LEAFDEL['64'], 'INODE_DEL': INODEDEL % nf}, cfgs=CFG_NODE, thorough_cfgs=ALL_CFGS, unwind=258 if max(frm, to) >= 3 else 20, floor=10, timeout=(7200 if heavy else 1200),
-        cut=({(3, 4): ['INIT/while_2econd', 'INIT/for_2econd']}.get((frm, to), [])),
-        under_contract=['basic_inode_%d<db, uint64_t>::basic_inode_%d(db&, inode_%d&, ...) + init (%s)' % (nt, nt, nf, 'growth' if to > frm else 'shrink')])
+        stubs={'LEAF_DEL': LEAFDEL['64'], 'INODE_DEL': INODEDEL % nf}, cfgs=((BASE, DEBUG) if heavy else CFG_NODE), thorough_cfgs=ALL_CFGS, unwind=258 if max(frm, to) >= 3 else 20, floor=10, timeout=(7200 if heavy else 1200),
+        cut=({(3, 4): ['INIT/while_2econd', 'INIT/for_2econd'], (4, 3): ['INIT/for_2econd'], (3, 2): ['INIT/while_2econd']}.get((frm, to), [])), split=(10 if heavy else 0),
+        under_contract=['basic_inode_%d<db, uint64_t>::basic_inode_%d(db&, inode_%d&, ...) + init (%s)' % (nt, nt, nf, 'growth' if to > frm else 'shrink')],
+        trusted=(['counting form of the source invariant: the number of key bytes the routine copies equals count (N48: pigeonhole over the slot bijection), stated through the ghost rank array', 'pointwise (witness) form of the loop invariant after element-wise havoc of the destination arrays'] if heavy else []))
 
 # ---- the same node-level contracts on the OLC instantiation (olc_db policy: lock word in the node header, relaxed-atomic fields run sequentially)
 def onode_rx(n): return r'^unodb::detail::(basic_inode_%d<unodb::detail::basic_art_policy<unsigned long, %s, unodb::olc_db, .*>|olc_inode_%d<unsigned long, %s >)::' % (n, SPAN, n, SPAN)
